@@ -836,3 +836,27 @@ func (a *arena) verify() error {
 	}
 	return nil
 }
+
+// twinFields calls emit with pairs of field values of equal length that differ in exactly one
+// byte - at the start, inside the first and the last eight bytes, in the middle, at the end -
+// for lengths from 9 to 5000: chr1_unlocalized / chr2_unlocalized, two reads whose qualities
+// differ at one position. (A reader that recognises a field by its length and a few probes
+// hands out the wrong twin.)
+func twinFields(emit func(a, b gen.B) bool) bool {
+	for _, l := range []int{9, 16, 17, 32, 33, 64, 100, 300, 5000} {
+		a := gen.B(bytes.Repeat([]byte("FGHIJKLMNOPQ"), l/12+1)[:l])
+		seen := map[int]bool{}
+		for _, pos := range []int{0, 3, l / 4, l/2 - 5, l / 2, l - 9, l - 1} {
+			if pos < 0 || pos >= l || seen[pos] {
+				continue
+			}
+			seen[pos] = true
+			b := gen.B(bytes.Clone(a))
+			b[pos] = 'A' + byte(pos%3)
+			if !emit(a, b) {
+				return false
+			}
+		}
+	}
+	return true
+}
